@@ -998,8 +998,9 @@ Print Assumptions C05_fault_closing2_doc_ws_partial.
     the math delimiters and the math environments), in front of what follows them.
 
     NOT covered (differential testing only): insertion points inside an item (between the
-    tokens of a call, inside whitespace), in a braced or delimited macro argument (the path
-    notion of [Proofs/Fault2Path.v] goes through groups, formulas and environment bodies only),
+    tokens of a call, inside whitespace), in a delimited macro argument or below a braced one
+    (the path notion of [Proofs/Fault2Path.v] goes through groups, formulas and environment
+    bodies only; a braced argument as the INNERMOST construct: last section of this file),
     in a [$ $] / [$$ $$] formula (its closing delimiter is not a stray closing token: it
     opens a nested formula), a math delimiter inserted in math mode, environments with a legacy
     (verbatim) signature; the hypotheses are on the FAULTED text (items well formed in front of
@@ -1234,3 +1235,105 @@ Print Assumptions C05_fault_opening2_partial.
 Print Assumptions C05_fault_opening2_nested_partial.
 Print Assumptions C05_fault_opening2_any_suffix_partial.
 Print Assumptions C05_fault_unclosed2_partial.
+
+(** * Faults in the body of a BRACED MANDATORY ARGUMENT of a macro call over the extended
+    grammar (proofs in [Proofs/Fault2OpenArg.v])
+
+    The call is written in a body reached through groups, formulas and environment bodies
+    ([path]); [bh_text before ws name post args1 aws 123] = the items [before] the call,
+    [ws \name post], the arguments [args1] in front of the braced one, whitespace [aws], the
+    opening brace; [ok_machole] = its side conditions (the slot that follows [args1] in the
+    macro's signature is a mandatory argument ([AKExpr]), whitespace in front of the brace only
+    where the slot allows it, the arguments [args1] well formed, ... evaluated against the
+    follow string), [bh_state] the state the argument is parsed in.  PARTIAL: the macro
+    argument is the INNERMOST construct (no path continues below it, except through the one
+    inserted delimiter), no comments between the arguments and the brace. *)
+From PLV Require Import Proofs.Fault2OpenArg.
+
+(** a stray [\)], [\]] or [\end{x}] ([c <> SBrace]: a [}] closes the argument) at an item
+    boundary of the argument's body: rejected where it stands, whatever follows *)
+Theorem C05_fault_closing2_macro_arg_partial : forall cx path before ws name post args1 aws l1 fws c g,
+  let ps0 := walker_state cx in
+  let hs := lp_state2 cx ps0 path in
+  let bt := bh_text before ws name post args1 aws 123%N in
+  let F := unparse_items2 l1 ++ fws ++ stray_text c ++ g in
+  ok_lpath2 cx ps0 path (bt ++ F) = true ->
+  ok_machole cx hs before ws name post args1 aws F = true ->
+  ok_items2 cx (bh_state cx hs name (length args1)) [] l1 (fws ++ stray_text c ++ g) = true ->
+  ws_ok fws = true -> stray_wf c -> c <> SBrace ->
+  let q := (length (lp_text2 path) + length bt + length (unparse_items2 l1) + length fws)%nat in
+  exists e,
+    parse_top (lp_text2 path ++ bt ++ F) false cx ps0
+    = PErr e (q + length (stray_text c))%nat
+    /\ pe_pos e = Some q /\ pe_what e = stray_what c.
+Proof. exact fault_closing2_marg. Qed.
+
+(** an unmatched opening delimiter at an item boundary of the argument's body: the new
+    construct reads on to a closing token [c] that is not its own — in a well-formed document
+    the closing brace of the argument ([c = SBrace], any delimiter but [{]) — and rejects it
+    there, whatever follows *)
+Theorem C05_fault_opening2_macro_arg_partial : forall cx path before ws name post args1 aws l1 fws op l2 tr c g,
+  let ps0 := walker_state cx in
+  let hs := lp_state2 cx ps0 path in
+  let aps := bh_state cx hs name (length args1) in
+  let bt := bh_text before ws name post args1 aws 123%N in
+  let F := unparse_items2 l2 ++ tr ++ stray_text c ++ g in
+  let FF := unparse_items2 l1 ++ fws ++ open_text2 op ++ F in
+  ok_lpath2 cx ps0 path (bt ++ FF) = true ->
+  ok_machole cx hs before ws name post args1 aws FF = true ->
+  open_side2 cx aps l1 fws op F = true ->
+  ok_items2 cx (open_state2 cx aps op) [] l2 (tr ++ stray_text c ++ g) = true -> ws_ok tr = true ->
+  stray_wf c -> open_closes2 op c = false ->
+  let q := (length (lp_text2 path) + length bt + length (unparse_items2 l1) + length fws + length (open_text2 op)
+            + length (unparse_items2 l2) + length tr)%nat in
+  exists e,
+    parse_top (lp_text2 path ++ bt ++ FF) false cx ps0
+    = PErr e (q + length (stray_text c))%nat
+    /\ pe_pos e = Some q /\ pe_what e = stray_what c.
+Proof. exact fault_opening2_marg. Qed.
+
+(** non-vacuity: [a \begin{center}b \section*[x]{] (31 characters: the mandatory argument of
+    [\section], after its star and its optional argument, in an environment) + [y] + a stray
+    [\)] / [\]] / [\end{zq}] + [ z}\end{center}]: rejected at offset 32; and + [y] + one of
+    the eight opening delimiters other than [{] + [ z] + the argument's [}] + [\end{center}]:
+    "unexpected closing brace" located at that brace *)
+Example C05_fault2_macro_arg_nonvacuous :
+  let cx := default_ctx in let ps0 := walker_state cx in
+  let path := [LEnv2 [Text2 [] [97]] [32] [] [99;101;110;116;101;114] []] in
+  let sec := [115;101;99;116;105;111;110] in
+  let args1 := [Text2 [] [42]; Brk2 [] 91 93 [Text2 [] [120]] []] in
+  let bt := bh_text [Text2 [] [98]] [32] sec [] args1 [] 123 in
+  let hs := lp_state2 cx ps0 path in
+  let aps := bh_state cx hs sec 2 in
+  let l1 := [Text2 [] [121]] in let l2 := [Text2 [32] [122]] in
+  length (lp_text2 path ++ bt) = 31%nat /\
+  forallb (fun c =>
+    let g := [32;122;125;92;101;110;100;123;99;101;110;116;101;114;125] in
+    let F := unparse_items2 l1 ++ [] ++ stray_text c ++ g in
+    ok_lpath2 cx ps0 path (bt ++ F) && ok_machole cx hs [Text2 [] [98]] [32] sec [] args1 [] F &&
+    ok_items2 cx aps [] l1 ([] ++ stray_text c ++ g) &&
+    match parse_top (lp_text2 path ++ bt ++ F) false cx ps0 with
+    | PErr e p => Nat.eqb p (32 + length (stray_text c))%nat
+                  && match pe_pos e with Some q => Nat.eqb q 32%nat | None => false end
+                  && Nat.eqb (pe_what e) (stray_what c)
+    | _ => false
+    end) [SMClose MParen; SMClose MBracket; SEnd [122;113]] = true /\
+  forallb (fun op =>
+    let c := SBrace in
+    let g := [92;101;110;100;123;99;101;110;116;101;114;125] in
+    let F := unparse_items2 l2 ++ [] ++ stray_text c ++ g in
+    let FF := unparse_items2 l1 ++ [] ++ open_text2 op ++ F in
+    let q := (31 + 1 + length (open_text2 op) + 2)%nat in
+    ok_lpath2 cx ps0 path (bt ++ FF) && ok_machole cx hs [Text2 [] [98]] [32] sec [] args1 [] FF &&
+    open_side2 cx aps l1 [] op F && ok_items2 cx (open_state2 cx aps op) [] l2 ([] ++ stray_text c ++ g) &&
+    negb (open_closes2 op c) &&
+    match parse_top (lp_text2 path ++ bt ++ FF) false cx ps0 with
+    | PErr e p => Nat.eqb p (q + 1)%nat
+                  && match pe_pos e with Some q' => Nat.eqb q' q | None => false end
+                  && Nat.eqb (pe_what e) 2%nat
+    | _ => false
+    end) (skipn 1 c05_openers2) = true.
+Proof. vm_compute. repeat split. Qed.
+
+Print Assumptions C05_fault_closing2_macro_arg_partial.
+Print Assumptions C05_fault_opening2_macro_arg_partial.
